@@ -258,7 +258,8 @@ SPEC = {
              'bit-sliced integer arithmetic on reference value vectors (all 2^n rows up to 14 inputs, else 2048 seeded + '
              'corner rows): sum(out*2^level) == sum(in*2^weight), distinct levels, a + b*2^shift, returned labels exist; '
              'host discipline (old gates structurally and functionally unchanged, interface unchanged), no XOR/NXOR among '
-             'fresh gates under AIG, documented gate-count bounds. Non-trivial: n>=3 with a carry across levels.'),
+             'fresh gates under AIG, documented gate-count bounds. Non-trivial: n>=3 with a carry across levels.'
+             ' Added during the build: lopsided and long operand lists, live lists / one object for both numbers / tuples / iterators, all weights shifted beyond 256 as separate int objects, generators asked twice with the first result changed in between, hosts holding the labels about to be generated, a refused call (absent label, on a host of its own) before the ordinary one, constant-zero runs inside operands.'),
     'assumptions': ['reference tables from vlib/refsem.py; uuid4 replaced by a seeded stream'],
     'subs': [Sub('sum', cases, arith.with_refused_prelude(arith.with_label_collisions(check_sum)), {'quick': 1600, 'thorough': 125000})],
     'required_classes': {'sum': KINDS + ['basis:AIG/str', 'basis:AIG/enum', 'basis:XAIG/str', 'internal_operands',
